@@ -109,7 +109,7 @@ def validate_trace(path, clients):
     mc = TRACE_MC % ", ".join('"%s"' % c for c in clients)
     cfg = make_cfg("TraceSpec", {"Clients": "<- c_TClients", "MaxVer": 1000000, "MaxAdmin": 1000000, "MaxFlush": 1000000,
                                  "Barrier": "FALSE", "CloseWaits": "FALSE"},
-                   ["TInv_Conservation", "TInv_NoAckedLoss"], [], constraint="HighWater", postcondition="TraceAccepted")
+                   ["TInv_NoAckedLoss"], [], constraint="HighWater", postcondition="TraceAccepted")
     r = run_tlc("MC_TraceWriter", "t.cfg", cfg_text=cfg, extra_files={"MC_TraceWriter.tla": mc}, workers=1, timeout=600,
                 dfs=True, env_extra={"TRACE": path})
     return r
